@@ -200,16 +200,24 @@ func (t *flatCallTracer) CaptureExit(output []byte, gasUsed uint64, err error) {
 	if t.config.IncludePrecompiles {
 		return
 	}
+	// call has been nested in parent: either among its calls or, if an aspect
+	// of the parent issued it, among the calls of that aspect's frame
+	parent := &t.tracer.callstack[len(t.tracer.callstack)-1]
+	calls := &parent.Calls
+	if parent.joinPoint != types.JoinPointRunType_Unknown && len(parent.JoinPoints) > 0 {
+		calls = &parent.JoinPoints[len(parent.JoinPoints)-1].Calls
+	}
+	if len(*calls) == 0 {
+		return
+	}
 	var (
-		// call has been nested in parent
-		parent = t.tracer.callstack[len(t.tracer.callstack)-1]
-		call   = parent.Calls[len(parent.Calls)-1]
-		typ    = call.Type
-		to     = call.To
+		call = (*calls)[len(*calls)-1]
+		typ  = call.Type
+		to   = call.To
 	)
 	if typ == vm.CALL || typ == vm.STATICCALL {
-		if t.isPrecompiled(*to) {
-			t.tracer.callstack[len(t.tracer.callstack)-1].Calls = parent.Calls[:len(parent.Calls)-1]
+		if to != nil && t.isPrecompiled(*to) {
+			*calls = (*calls)[:len(*calls)-1]
 		}
 	}
 }
